@@ -122,7 +122,11 @@ def run_machine(mod, part, n_examples, seed_value, stats, name, shrink):
     )
     try:
         run_state_machine_as_test(hypothesis.seed(seed_value)(Machine), settings=st_)
-    except core.Violation as e:
+    except hypothesis.errors.FailedHealthCheck as e:
+        raise core.HarnessError(f"machine health check failed: {e}")
+    except Exception as e:  # noqa
+        if not isinstance(e, core.Violation) and not core.is_library_exception(e):
+            raise
         case = Machine.LAST
         # confirm through the pure checker (the replay form)
         v = core.run_check(mod, case)
@@ -131,8 +135,6 @@ def run_machine(mod, part, n_examples, seed_value, stats, name, shrink):
         stats.parts[name] += 1
         if stats.violation is None:
             stats.violation = (case, msg, name)
-    except hypothesis.errors.FailedHealthCheck as e:
-        raise core.HarnessError(f"machine health check failed: {e}")
 
 
 def probe_known_findings(mod, prop_id):
